@@ -3,5 +3,8 @@
 cd /verif
 tier="${1:-quick}"
 for c in $(python3 -c "import json; print(' '.join(x['property_id'] for x in json.load(open('MANIFEST.json'))['checks']))"); do
-  /usr/bin/time -f "%es" ./check "$c" --tier "$tier" 2>&1 | grep -v "^KNOWN-FINDING" | tail -2 | tr '\n' ' '; echo
+  ./check "$c" --tier "$tier" > /tmp/run_all.$$.out 2>&1; rc=$?
+  echo "exit=$rc $(grep "^$c $tier:" /tmp/run_all.$$.out | tail -1) $(grep -c '^VIOLATION' /tmp/run_all.$$.out) violation line(s)"
+  grep '^ANALYSIS-BROKEN' /tmp/run_all.$$.out | head -3
 done
+rm -f /tmp/run_all.$$.out
